@@ -13,7 +13,7 @@ FUNCTIONS = ["FlodymArray.__setitem__", "FlodymArray.set_values", "FlodymArray._
              "SubArrayHandler._init_ids", "SubArrayHandler._init_dims_out"]
 ASSUMPTIONS = ["sources under a subset-Dimension key carry that same subset Dimension (same letter and items)"]
 OUTSIDE = ["FlodymArray sources under list selectors", "targets with more than 4 dimensions", "keyed (non-ellipsis) ndarray assignment with a broadcastable shape (numpy semantics, not claimed by the property)"]
-VARIANTS = 'keys by letter and by name; one key object mutated between assignments; integer items out of order; dtype shadow (float64 target, integer right-hand sides)'
+VARIANTS = 'keys by letter and by name; one key object mutated between assignments; integer items out of order; dtype shadow (float64 target, integer right-hand sides); int fill followed by fractions (dtype shadow)'
 BOUNDS = {
     "quick": dict(targets="(a2) (a2,b3) (b3,a2) (a2,b2) (a2,b3,c2)", keys="ellipsis + every none/item/subset selector tuple (subsets <= 2 items on 3-d)",
                   sources="every ordered subset of region letters + up to 2 surplus letters; number; ndarray exact / wrong shapes", histories="all ordered pairs of 2-d keys x {number, array}"),
